@@ -152,7 +152,8 @@ func vLoopCycle(c *Coordinator) bool { return zzv.Crashed(func() { _ = c.runOnce
 // arbitrary consistent initial placement (each target absent / normal / in_transfer on each
 // shard), optionally one fault (fault > 0) at a chosen cycle, then fault-free cycles with 3
 // scrapes of every assigned target between cycles. Within H cycles the placement must be
-// converged, and one further cycle must change nothing.
+// converged, and one further cycle must change nothing. fault: low bits = number of injected
+// faults (0 or 1); bit 4 (16) = fixed spread initial placement (used for K = 2).
 func VLoop(S, K, H, fault int) {
 	vLoopK = uint64(K)
 	sizes := []int64{100, 40, 70}
@@ -181,7 +182,16 @@ func VLoop(S, K, H, fault int) {
 		l := m.add()
 		req := &shard.UpdateTargetsRequest{Targets: map[string][]*target.Target{}}
 		for h := 1; h <= K; h++ {
-			switch zzv.Choose(l.name+".init.h"+zzv.Itoa(h), 3) {
+			pick := 0
+			if fault&16 != 0 {
+				// fixed "spread" placement: target h sits in normal state on shard (h-1) mod S
+				if (h-1)%S == i {
+					pick = 1
+				}
+			} else {
+				pick = zzv.Choose(l.name+".init.h"+zzv.Itoa(h), 3)
+			}
+			switch pick {
 			case 1:
 				req.Targets["job"+zzv.Itoa(h)] = []*target.Target{{Hash: uint64(h), Series: sizes[h-1], TotalSeries: sizes[h-1]}}
 			case 2:
@@ -193,7 +203,7 @@ func VLoop(S, K, H, fault int) {
 			l.scrape(3, size)
 		}
 		// an overloaded shard: its Prometheus reports far more head series than the limit
-		if limitHead != 0 && i == 0 && zzv.Choose(l.name+".overloaded", 2) == 1 {
+		if limitHead != 0 && i == 0 && fault&16 == 0 && zzv.Choose(l.name+".overloaded", 2) == 1 {
 			l.sc.Head = 2 * limitHead
 			zzv.Cover("loop.overloaded")
 		}
@@ -207,7 +217,7 @@ func VLoop(S, K, H, fault int) {
 		func() map[uint64]*discovery.SDTargets { return active }, prometheus.NewRegistry(), vLogger())
 
 	faultAt := -1
-	if fault > 0 {
+	if fault&15 > 0 {
 		faultAt = zzv.Choose("fault.cycle", 2)
 	}
 	convergedAt := -1
@@ -251,7 +261,7 @@ func VLoop(S, K, H, fault int) {
 		before[l.name] = len(l.sc.Status())
 	}
 	nShards := len(m.shards)
-	_ = c.runOnce()
+	_ = vLoopCycle(c)
 	zzv.Assert("C03.loop.stable", m.converged(K) && len(m.shards) == nShards)
 	for _, l := range m.shards {
 		zzv.Assert("C03.loop.stable.lists", before[l.name] == len(l.sc.Status()))
